@@ -83,7 +83,10 @@ fn main() {
     std::panic::set_hook(Box::new(|_| {}));
     for path in &args[1..] {
         let sc: Value = serde_json::from_str(&std::fs::read_to_string(path).expect("scenario file")).expect("scenario json");
-        let tmp = std::env::temp_dir().join(format!("plsverif-replay-{}-{}", std::process::id(), out.len()));
+        let repeat = sc.get("repeat").and_then(|r| r.as_u64()).unwrap_or(1);
+        let mut runs: Vec<Vec<Value>> = vec![];
+        for rep in 0..repeat {
+        let tmp = std::env::temp_dir().join(format!("plsverif-replay-{}-{}-{}", std::process::id(), out.len(), rep));
         let _ = std::fs::remove_dir_all(&tmp);
         std::fs::create_dir_all(&tmp).unwrap();
         let root = tmp.canonicalize().unwrap();
@@ -120,6 +123,15 @@ fn main() {
             }
         }
         let _ = std::fs::remove_dir_all(&tmp);
+        runs.push(observed);
+        }
+        // one run: the observations as they are; several runs (fresh database each): per label the list of values
+        let observed: Vec<Value> = if repeat == 1 { runs.pop().unwrap() } else {
+            let mut labels: Vec<Value> = vec![];
+            for o in &runs[0] { labels.push(o["label"].clone()); }
+            labels.iter().map(|l| json!({"label": l, "op": "query-repeated",
+                "value": runs.iter().map(|r| r.iter().find(|o| &o["label"] == l).map(|o| o["value"].clone()).unwrap_or(Value::Null)).collect::<Vec<Value>>()})).collect()
+        };
         out.push(json!({"scenario": path, "id": sc["id"], "observed": observed}));
     }
     println!("{}", serde_json::to_string(&Value::Array(out)).unwrap());
